@@ -184,15 +184,24 @@ fn thread_stacks() -> Vec<String> {
         return vec![];
     }
     let pid = std::process::id().to_string();
-    let out = std::process::Command::new("timeout")
-        .args(["20", "gdb", "-p", &pid, "-batch", "-ex", "set pagination off", "-ex", "thread apply all bt 30"])
-        .stdin(std::process::Stdio::null())
-        .stderr(std::process::Stdio::null())
-        .output();
-    let text = match out {
-        Ok(o) => String::from_utf8_lossy(&o.stdout).to_string(),
-        Err(e) => return vec![format!("gdb unavailable: {e}")],
+    // gdb stops every thread of this process, including this one: its output must go to a file,
+    // not to a pipe that nobody can drain while we are stopped
+    let path = std::env::temp_dir().join(format!("rdbmon-stacks-{pid}.txt"));
+    let file = match std::fs::File::create(&path) {
+        Ok(f) => f,
+        Err(e) => return vec![format!("cannot create {}: {e}", path.display())],
     };
+    let status = std::process::Command::new("timeout")
+        .args(["-s", "KILL", "25", "gdb", "-p", &pid, "-batch", "-ex", "set pagination off", "-ex", "thread apply all bt 30"])
+        .stdin(std::process::Stdio::null())
+        .stdout(file)
+        .stderr(std::process::Stdio::null())
+        .status();
+    let text = std::fs::read_to_string(&path).unwrap_or_default();
+    let _ = std::fs::remove_file(&path);
+    if let Err(e) = status {
+        return vec![format!("gdb unavailable: {e}")];
+    }
     let mut lines = vec![];
     for l in text.lines() {
         // frame lines look like `#9  [0x… in ]function (args) at file:line`
